@@ -5,7 +5,7 @@ import json, os, subprocess, sys, tempfile, xml.etree.ElementTree as ET
 repo = sys.argv[1] if len(sys.argv) > 1 else "/repo"
 base = json.load(open("/root/.vp/BASELINE.json"))
 fd, out = tempfile.mkstemp(suffix=".xml", dir="/var/tmp"); os.close(fd)
-env = dict(os.environ); env.pop("ECDSA_VERIF", None); env["PYTHONHASHSEED"] = "0"
+env = dict(os.environ); env.pop("ECDSA_VERIF", None); env["PYTHONHASHSEED"] = "0"; hyp = tempfile.mkdtemp(dir="/var/tmp"); env["HYPOTHESIS_STORAGE_DIRECTORY"] = hyp
 p = subprocess.run(["/venv/bin/python", "-m", "pytest", "-q", "-p", "no:cacheprovider",
     "--timeout=900", "--continue-on-collection-errors", "--junitxml=" + out],
     cwd=repo, env=env, stdout=subprocess.PIPE, stderr=subprocess.STDOUT, text=True)
@@ -13,7 +13,7 @@ passed = set()
 for tc in ET.parse(out).getroot().iter("testcase"):
     if not any(c.tag in ("failure", "error", "skipped") for c in tc):
         passed.add("%s::%s" % (tc.get("classname"), tc.get("name")))
-os.unlink(out)
+os.unlink(out); import shutil; shutil.rmtree(hyp, ignore_errors=True)
 want = set(base["stable_pass"])
 missing = sorted(want - passed)
 print(p.stdout.strip().splitlines()[-1])
